@@ -1,13 +1,14 @@
 (* Show_build.v -- Gallina mirror of ocaml/build/driver.ml (engine `build`: Build.v; C01, C02, C05, C13, C14, C15).
    A case is one history (the list of ops the driver parses from its token stream); the answer is the
    driver's line: the builds of the log separated by ';', each
-     ok '|' executed labels '|' status letters '|' workspace (sorted by path).
+     ok '|' executed labels '|' status letters '|' workspace (sorted by path),
+   followed by "#k=" and the boolean structural guard of KEYFAITH.v on the visited snapshots.
    The driver's digest function interns byte strings in a hash table (an injective, '_'-free, fixed-length
    function); here the digest is XSupport.Hx (injective, '_'-free, self-delimiting).  The observation contains
    no digest, only what the equalities between digests decide, so the two must agree.
    Not part of the development; definitions only. *)
 From Coq Require Import String.   (* first, so that the List names win *)
-From Grog Require Import Str Label HashKey Build.
+From Grog Require Import Str Label HashKey Build Build_ideal Build_keyfaith.
 From GrogX Require Import XSupport.
 
 Definition case := list op.
@@ -37,4 +38,4 @@ Definition show_build (r : build_result) : str :=
   b01 (br_ok r) ++ L "|" ++ ex ++ L "|" ++ st ++ L "|" ++ ws.
 
 Definition run_case (ops : case) : str :=
-  catmap (L ";") show_build (sy_log (run_history Hx ops)).
+  catmap (L ";") show_build (sy_log (run_history Hx ops)) ++ L "#k=" ++ b01 (snaps_okb (snaps ops)).
